@@ -231,7 +231,7 @@ func cmdVerify(args []string) int {
 func (e *Engine) verifyAll(fns []*ssa.Function, opt *Options) []*FuncResult {
 	results := make([]*FuncResult, len(fns))
 	var wg sync.WaitGroup
-	sem := make(chan struct{}, 8)
+	sem := make(chan struct{}, 6)
 	for i, fn := range fns {
 		wg.Add(1)
 		go func(i int, fn *ssa.Function) {
@@ -293,11 +293,9 @@ func (e *Engine) discharge(res *FuncResult, t *tr, body string, opt *Options) {
 	if per == 0 {
 		per = 10 * time.Second
 	}
-	first := per
-	if first > 4*time.Second {
-		first = 4 * time.Second
-	}
-	mk := func(solver string, obls []*Obligation, withVacuity bool, limit time.Duration) string {
+	// One non-incremental script per obligation: the facts that precede it in program order (earlier obligations
+	// assumed), then its negation. Non-incremental solving is far more robust than push/pop (measured: 0.04 s vs unknown).
+	header := func(solver string, limit time.Duration) string {
 		var sb strings.Builder
 		sb.WriteString(e.buildPrelude(solver))
 		if solver != "cvc5" {
@@ -306,139 +304,120 @@ func (e *Engine) discharge(res *FuncResult, t *tr, body string, opt *Options) {
 				fmt.Fprintf(&sb, "(set-option :smt.random_seed %d)\n", opt.Seed%1000000)
 			}
 		}
-		// obligations are checked in program order, each under the facts that precede it; afterwards it is assumed
-		idx := map[*Obligation]bool{}
-		for _, o := range obls {
-			idx[o] = true
-		}
-		single := len(obls) == 1
+		return sb.String()
+	}
+	hdr := map[string]string{}
+	for _, s := range []string{"z3-new", "z3", "cvc5"} {
+		hdr[s] = header(s, per)
+	}
+	base := sanitize(res.Key)
+	if len(base) > 100 {
+		base = base[len(base)-100:]
+	}
+	res.SMTBytes = len(hdr["z3-new"]) + len(body)
+	// prefixes
+	prefixes := make([]string, len(res.Obls))
+	{
+		var sb strings.Builder
 		for _, line := range strings.Split(body, "\n") {
 			if strings.HasPrefix(line, ";;OBL ") {
 				var k int
 				fmt.Sscanf(line, ";;OBL %d", &k)
+				prefixes[k] = sb.String()
 				o := res.Obls[k]
-				if idx[o] {
-					fmt.Fprintf(&sb, "(push 1)\n(assert (and %s (not %s)))\n(check-sat)\n(pop 1)\n", o.Guard, o.Goal)
-					if single {
-						break
-					}
-				}
 				fmt.Fprintf(&sb, "(assert (=> %s %s))\n", o.Guard, o.Goal)
 				continue
 			}
 			sb.WriteString(line)
 			sb.WriteString("\n")
 		}
-		if withVacuity {
-			for _, r := range t.returns {
-				fmt.Fprintf(&sb, "(push 1)\n(assert %s)\n(check-sat)\n(pop 1)\n", r)
+		if opt.KeepSMT != "" {
+			os.MkdirAll(opt.KeepSMT, 0755)
+			os.WriteFile(filepath.Join(opt.KeepSMT, base+".smt2"), []byte(hdr["z3-new"]+sb.String()), 0644)
+		}
+		// vacuity: with everything assumed, is any return reachable?
+		if len(t.returns) > 0 {
+			full := sb.String()
+			go func() {}()
+			vf := writeScratch(base+"_vac.smt2", header("z3-new", 2*time.Second)+full+fmt.Sprintf("(assert (or %s))\n(check-sat)\n", strings.Join(t.returns, " ")))
+			vr := runSolverLimited("z3-new", vf, 3*time.Second)
+			res.SolverMs += vr.millis
+			if len(vr.lines) > 0 && vr.lines[0] == "unsat" && len(vr.errors) == 0 {
+				res.Vacuous = append(res.Vacuous, "no return is reachable under the contract's assumptions (contradictory requires / assumed contracts)")
 			}
 		}
-		return sb.String()
 	}
-	base := sanitize(res.Key)
-	if len(base) > 120 {
-		base = base[len(base)-120:]
+	query := func(o *Obligation) string {
+		return fmt.Sprintf("(assert (and %s (not %s)))\n(check-sat)\n", o.Guard, o.Goal)
 	}
-	script := mk("z3-new", res.Obls, false, first)
-	res.SMTBytes = len(script)
-	file := writeScratch(base+".smt2", script)
-	if opt.KeepSMT != "" {
-		os.MkdirAll(opt.KeepSMT, 0755)
-		os.WriteFile(filepath.Join(opt.KeepSMT, base+".smt2"), []byte(script), 0644)
-	}
-	total := time.Duration(len(res.Obls)+1) * first
-	if total > 10*time.Minute {
-		total = 10 * time.Minute
-	}
-	// vacuity probes run beside the main script: a return that is provably unreachable means contradictory assumptions
-	vacDone := make(chan struct{})
-	go func() {
-		defer close(vacDone)
-		if len(t.returns) == 0 {
-			return
+	run := func(k int, solver string, limit time.Duration) (string, int64, []string) {
+		o := res.Obls[k]
+		scr := hdr[solver] + prefixes[k] + query(o)
+		f := writeScratch(fmt.Sprintf("%s_%d_%s.smt2", base, k, solver), scr)
+		if opt.KeepSMT != "" && solver == "z3-new" {
+			os.WriteFile(filepath.Join(opt.KeepSMT, fmt.Sprintf("%s__%s.smt2", base, sanitize(o.Name))), []byte(scr), 0644)
 		}
-		vf := writeScratch(base+"_vac.smt2", mk("z3-new", nil, true, 1500*time.Millisecond))
-		vr := runSolverLimited("z3-new", vf, time.Duration(len(t.returns)+1)*1500*time.Millisecond)
-		unreach := 0
-		for i := range t.returns {
-			if i < len(vr.lines) && vr.lines[i] == "unsat" && len(vr.errors) == 0 {
-				unreach++
-			}
-		}
-		// a single unreachable return is normal (code after a call that never returns); none reachable = contradiction
-		if unreach == len(t.returns) {
-			res.Vacuous = append(res.Vacuous, "no return is reachable under the contract's assumptions (contradictory requires / assumed contracts)")
-		}
-	}()
-	defer func() { <-vacDone }()
-	sr := runSolverLimited("z3-new", file, total)
-	res.SolverMs += sr.millis
-	if len(sr.errors) > 0 {
-		res.Fatal = append(res.Fatal, "solver error: "+sr.errors[0])
-	}
-	var pending []*Obligation
-	for i, o := range res.Obls {
+		r := runSolverLimited(solver, f, limit)
+		os.Remove(f)
 		st := "unknown"
-		if i < len(sr.lines) {
-			st = sr.lines[i]
+		if len(r.lines) > 0 {
+			st = r.lines[0]
 		}
-		if len(sr.errors) > 0 {
+		if len(r.errors) > 0 {
 			st = "error"
 		}
-		o.Status, o.Solver = st, "z3-new"
-		if st != "unsat" {
-			pending = append(pending, o)
-		}
+		return st, r.millis, r.errors
 	}
-	if len(pending) == 0 || len(sr.errors) > 0 {
-		return
-	}
-	// second opinion on what z3-new did not discharge: old z3 and cvc5, one script per obligation, in parallel
 	var wg sync.WaitGroup
 	var mu sync.Mutex
-	if len(pending) > 60 {
-		for _, o := range pending {
-			o.Note = "too many open obligations in this function: second opinion skipped"
-		}
-		return
-	}
-	for _, o := range pending {
-		for _, solver := range []string{"z3-new", "z3", "cvc5"} {
-			if solver == "z3-new" && per <= first {
-				continue
+	for k := range res.Obls {
+		wg.Add(1)
+		go func(k int) {
+			defer wg.Done()
+			o := res.Obls[k]
+			st, ms, errs := run(k, "z3-new", per)
+			mu.Lock()
+			res.SolverMs += ms
+			o.Status, o.Solver, o.Millis = st, "z3-new", ms
+			if len(errs) > 0 {
+				res.Fatal = append(res.Fatal, "solver error: "+errs[0])
 			}
-			wg.Add(1)
-			go func(o *Obligation, solver string) {
-				defer wg.Done()
-				scr := mk(solver, []*Obligation{o}, false, per)
-				f := writeScratch(fmt.Sprintf("%s_%s_%s.smt2", base, sanitize(o.Name), solver), scr)
-				if opt.KeepSMT != "" {
-					os.WriteFile(filepath.Join(opt.KeepSMT, fmt.Sprintf("%s_%s.smt2", sanitize(o.Name), solver)), []byte(scr), 0644)
+			mu.Unlock()
+			if st == "unsat" || st == "error" {
+				if !opt.Thorough || st == "error" {
+					return
 				}
-				r := runSolverLimited(solver, f, per)
+			}
+			// second opinion (always in thorough mode: cross-check)
+			for _, solver := range []string{"z3", "cvc5"} {
+				st2, ms2, _ := run(k, solver, per)
 				mu.Lock()
-				defer mu.Unlock()
-				res.SolverMs += r.millis
-				if len(r.lines) > 0 && r.lines[0] == "unsat" && len(r.errors) == 0 {
-					o.Status, o.Solver, o.Millis = "unsat", solver, r.millis
-				} else if o.Status != "unsat" && len(r.lines) > 0 && r.lines[0] == "sat" && o.Status != "sat" {
+				res.SolverMs += ms2
+				if st2 == "unsat" && o.Status != "unsat" {
+					o.Status, o.Solver, o.Millis = "unsat", solver, ms2
+				} else if st2 == "sat" && o.Status == "unsat" && !strings.Contains(prefixes[k]+query(o), "forall") {
+					// quantifier-free disagreement is an engine error
+					res.Fatal = append(res.Fatal, fmt.Sprintf("solver disagreement on %s: %s says unsat, %s says sat", o.Name, o.Solver, solver))
+				} else if st2 == "sat" && o.Status != "unsat" {
 					o.Note = strings.TrimSpace(o.Note + " " + solver + ":sat")
 				}
-			}(o, solver)
-		}
+				mu.Unlock()
+				if o.Status == "unsat" && !opt.Thorough {
+					break
+				}
+			}
+		}(k)
 	}
 	wg.Wait()
-	// models for what is still open: quantifier-free relaxation first (fast), then MBQI
 	nm := 0
-	for _, o := range pending {
-		if o.Status == "unsat" {
+	for k, o := range res.Obls {
+		if o.Status == "unsat" || o.Status == "error" {
 			continue
 		}
-		if nm++; nm > 8 {
+		if nm++; nm > 6 {
 			break
 		}
-		e.findModel(o, t, prefixFor(res, body, o), base, per)
+		e.findModel(o, t, prefixes[k], base, per)
 	}
 }
 
